@@ -48,7 +48,12 @@ def params():
         "seed": st.integers(0, 2 ** 31 - 1),
         "nvals": st.integers(1, 4),
         "rotvec_mag": st.one_of(gens.rot_angles(-15), gens.angles()),
-        "q": st.lists(gens.signed_logmag(-3, 3), min_size=4, max_size=4),
+        # four components of any size, or (one case in four) scaled to a length of 1 +- m x 10^-k: nearly unit already, which a
+        # normalising constructor must still normalise
+        "q": st.one_of(st.lists(gens.signed_logmag(-3, 3), min_size=4, max_size=4), st.lists(gens.signed_logmag(-3, 3), min_size=4, max_size=4),
+                       st.lists(gens.signed_logmag(-3, 3), min_size=4, max_size=4),
+                       st.tuples(st.lists(gens.signed_logmag(-1, 1), min_size=4, max_size=4), st.sampled_from([-1.0, 1.0]), st.sampled_from([1.0, 2.0, 3.0, 5.0, 8.0]),
+                                 st.integers(3, 12)).map(lambda t: [x / math.sqrt(sum(y * y for y in t[0])) * (1.0 + t[1] * t[2] * 10.0 ** (-t[3])) for x in t[0]])),
         "X": gens.pose3(t_hi=6), "Y": gens.pose3(t_hi=6),
         "X2": gens.pose2(t_hi=6), "Y2": gens.pose2(t_hi=6),
         "noise": gens.logmag(-15, -2), "pattern": st.lists(gens.fl(-1, 1), min_size=9, max_size=9),
@@ -444,9 +449,17 @@ def classify(case):
     return lab
 
 
+def s_near_unit_q():
+    """the entries that take a quaternion-like 4-vector, always with a vector whose length is 1 +- m x 10^-k"""
+    nu = st.tuples(st.lists(gens.signed_logmag(-1, 1), min_size=4, max_size=4), st.sampled_from([-1.0, 1.0]), st.sampled_from([1.0, 2.0, 3.0, 5.0, 8.0]),
+                   st.integers(3, 12)).map(lambda t: [x / math.sqrt(sum(y * y for y in t[0])) * (1.0 + t[1] * t[2] * 10.0 ** (-t[3])) for x in t[0]])
+    return st.tuples(s_entry(), st.sampled_from(["UQ(s,v)", "unit", "q2r(unit)"]), nu).map(lambda t: dict(t[0], entry=t[1], p=dict(t[0]["p"], q=t[2])))
+
+
 def subchecks(tier):
     return [
         Sub("entry", strategy=s_entry(), n=(600, 20000), shards=(10, 16)),
+        Sub("near_unit_quaternions", strategy=s_near_unit_q(), n=(120, 2000), shards=(2, 4)),
         Sub("tree", strategy=s_tree(3 if tier == "quick" else 5), n=(250, 8000), shards=(6, 16)),
         *probes.subs(PROPERTY_ID),
     ]
